@@ -32,6 +32,16 @@ class C10(Prop):
                 "NV.C10.tie_nextDue",
                 "NV.C10.tie_handleSlot",
                 "NV.C10.tie_efunResult",
+                "NV.C10.tie_unlinkDelta",
+                "NV.C10.tie_insertSplit",
+                "NV.C10.tie_insertWalk",
+                "NV.C10.tie_headDec",
+                "NV.C10.tie_headDue_dec",
+                "NV.C10.tie_chunkPos",
+                "NV.C10.tie_dropCond",
+                "NV.C10.tie_infoSkip",
+                "NV.C10.tie_infoCount",
+                "NV.C10.fireOne_eq_spec",
                 "NV.C10.reloadObj_ok",
                 "NV.C10.sim_reload",
                 "NV.C10.first_is_earliest",
@@ -96,6 +106,21 @@ class C10(Prop):
                 "NV.C10.tickend_sim",
                 "NV.C10.stepCmd_sim",
                 "NV.C10.runCmds_sim",
+                "NV.C10.fire_emit_sim",
+                "NV.C10.wheelSize_setSlot",
+                "NV.C10.wheelSize_le_pend",
+                "NV.C10.lo_le_wheelSize",
+                "NV.C10.newCallOut_size",
+                "NV.C10.stepOp_u",
+                "NV.C10.runOps_u",
+                "NV.C10.fireOne_u",
+                "NV.C10.visit_u",
+                "NV.C10.sweepSecond_u",
+                "NV.C10.sweepLoop_u",
+                "NV.C10.sweep_u",
+                "NV.C10.stepCmd_u",
+                "NV.C10.runCmds_u",
+                "NV.C10.usage_exact",
                 "NV.C10.model_satisfies_spec",
                 "NV.C10.wheelInv_always",
                 "NV.C10.sweep_catches_up",
@@ -103,6 +128,10 @@ class C10(Prop):
                 "NV.C10.handle_unique",
                 "NV.C10.deltas_ok",
                 "NV.C10.handles_fit_int",
+                "NV.C10.handleC_exact",
+                "NV.C10.handleC_overflow_witness",
+                "NV.C10.C10_handles_Full_false",
+                "NV.C10.handleC_collision_witness",
                 "NV.C10.time_left_fits_int"]
     consts = [("calloutCycleSize", "CALLOUT_CYCLE_SIZE")]
     const_headers = ["lib/efuns/options.h"]
@@ -110,15 +139,23 @@ class C10(Prop):
     thorough_n = 6000
     search_n = 1500
     design_ref = "5/C10"
-    technique = "Lean 4 proof (wheel invariant, induction over histories) + translator-generated constants + model/implementation correspondence"
+    technique = ("Lean 4 proof (wheel invariant, simulation relation with the oracle, bookkeeping invariant; induction over "
+                 "histories) + expressions regenerated from the clang AST with bridging lemmas + model/implementation correspondence")
     level_text = ("Lean 4 theorems about an executable model of lib/efuns/call_out.c (wheel arithmetic, delta-encoded "
                   "ordered insert, sweep, remove/find/time_left) for all delays, tick spacings and callback scripts; the "
-                  "model is tied to the source by the regenerated wheel size and by running the real call_out code and the "
-                  "model on the same generated histories; the Lean specification oracle judges every implementation trace")
-    level_note = ("trusted: Lean kernel; extract.py; the correspondence harness (differential, only the generated histories); "
-                  "callbacks are oracle scripts; command_giver handling, function-pointer call_outs and handle overflow after "
-                  "2^26 call_outs are not modelled (side condition of NV.C10.handles_fit_int); top theorem "
-                  "NV.C10.model_satisfies_spec: the oracle accepts every history of the model, for all scripts and commands")
+                  "model is tied to the source by ~30 expressions regenerated from the clang AST on every run (slot, rotation, "
+                  "handle, time_left, sweep order, insert comparison and delta updates, unlink update, head decrement, (int) "
+                  "casts, CHUNK_SIZE) each with a bridging lemma, and by running the real call_out code and the model on the "
+                  "same generated histories; the Lean specification oracle (firing, answers, call_out_info, this_player, "
+                  "print_call_out_usage bookkeeping) judges every implementation trace")
+    level_note = ("trusted: Lean kernel; extract.py / props/c10_extract.py (clang AST -> NV/Gen/C10.lean); the correspondence "
+                  "harness (differential, only the generated histories); callbacks are oracle scripts.  Top theorem "
+                  "NV.C10.model_satisfies_spec, no hypotheses: the oracle (all clauses, incl. the print_call_out_usage / "
+                  "num_call / free-list clause) accepts every history of the model, for all scripts and commands.  C int width: "
+                  "time left modelled ((int) cast regenerated), handles proved exact below 2^31/N call_outs "
+                  "(NV.C10.handleC_exact) with a Lean-checked witness above (NV.C10.C10_handles_Full_false, not replayed on the "
+                  "driver).  Observed only (checked by the LPC callback, no model): call_outs with 4 arguments incl. an object "
+                  "that is destructed meanwhile; f_call_out refusing a destructed current_object")
     rule = ("cases = corpus + known-finding inputs + boundary list + seeded random histories of "
             "call_out (string and function pointer, with and without this_player)/remove/find (by name and handle)/"
             "remove-all/reload_object/call_out_info/mud_status usage/destruct/error at top level and inside call_out "
@@ -126,10 +163,16 @@ class C10(Prop):
             "0..200 incl. backlog; the branch histogram of the run is in coverage.histogram; a case is "
             "non-trivial when its trace has >= 2 lines; distinct = distinct canonical implementation trace")
     not_covered = ["the O_LISTENER branch of call_out() (the flag is never set in this driver: dead code)",
-                   "reload_object (= remove_all_call_out + variable reset) is exercised only through remove_call_out()",
-                   "int overflow of the handle after 2^26 call_outs (undefined behaviour; bound in handles_fit_int)",
-                   "print_call_out_usage / num_call and the free list: compared with the model, no oracle clause",
-                   "f_call_out by a destructed current_object (modelled, never reached by the harness objects)",
+                   "int overflow of the handle after 2^26 call_outs (undefined behaviour): bound + Lean witness only, no replay "
+                   "on the driver (would need a hook that sets `unique`)",
+                   "argument vectors: one string argument in the model; 4-argument call_outs (string, object, number) are "
+                   "checked by the LPC callback only (observed, no theorem); refcounts of arguments are not observable",
+                   "f_call_out by a destructed current_object: probed by the harness (destco), the model has the branch but the "
+                   "probe is outside the model",
+                   "the static `cop` cleanup at the entry of call_out() (unreachable: every error is caught inside the loop), "
+                   "current_interactive = 0, eval_cost across the callbacks of one sweep, shutdown's remove_all_call_out",
+                   "hand-copied predicates: byName, remove_all_call_out's owner test, allocCall's free-list test "
+                   "(correspondence only)",
                    "see notes/C10-coverage.md for the full map"]
 
     def gen_extra(self, ctx, bdir):
@@ -241,6 +284,13 @@ class C10(Prop):
         mk("int-conversion-same-answer", ["vapply o1 do_op co,1,7,a", "vapply o1 do_op co,1,4294967303,b", "vapply o1 do_op fn,1",
                                           "vapply o1 do_op rmn,1", "vapply o1 do_op fh,a", "vapply o1 do_op fh,b",
                                           "vapply o1 do_op rmn,1", "vapply o1 do_op info"])
+        # more than one argument: string, object (zeroed when destructed before the call), number
+        mk("args", ["vapply o1 do_op coa,0,2,Aa", "vapply o1 do_op coafp,1,2,Ab", "vapply o2 do_op coa,2,3,Ac",
+                    "vapply o1 do_op co,3,2,d", "vapply o1 set_script co:Aa coa,0,1,Ae;dest,o2", "adv 2", "sweep",
+                    "adv 1", "sweep", "vapply o1 do_op coafp,1,40,Af", "vapply o1 do_op rmh,Af", "vapply o1 do_op coa,1,1,Ag",
+                    "vapply o1 do_op reload", "adv 1", "sweep"], nobj=3)
+        mk("call_out-by-destructed", ["vapply o1 do_op co,0,2,a", "vapply o1 do_op destco,o1", "vapply o2 set_script co:b destco,o2",
+                                      "vapply o2 do_op co,1,1,b", "adv 1", "sweep", "adv 1", "sweep"])
         mk("reschedule-chain", ["vapply o1 set_script co:a co,0,1,b", "vapply o1 set_script co:b co,0,32,c",
                                 "vapply o1 set_script co:c co,0,31,d", "vapply o1 do_op co,0,1,a", "adv 1", "sweep",
                                 "adv 1", "sweep", "adv 32", "sweep", "adv 31", "sweep"])
@@ -255,6 +305,10 @@ class C10(Prop):
             if k in ("co", "cofp"):
                 st["tag"] += 1
                 tag = "t%d" % st["tag"]
+                if rng.chance(1, 3):
+                    # four arguments instead of one (checked by the LPC callback itself)
+                    k = "coa" if k == "co" else "coafp"
+                    tag = "A%d" % st["tag"]
                 st["tags"].setdefault(self_obj, []).append(tag)
                 d = rng.weighted(DELAYS)
                 f = rng.below(4)
@@ -271,7 +325,10 @@ class C10(Prop):
                 fns = st["fns"].get(self_obj, [])
                 ops.append("%s,%d" % (k, rng.choice(fns) if fns and rng.chance(3, 4) else rng.below(4)))
             elif k == "dest":
-                ops.append("dest,o%d" % rng.range(1, st["nobj"]))
+                if rng.chance(1, 3):
+                    ops.append("destco,o%d" % self_obj)       # self-destruct + a call_out that must be refused
+                else:
+                    ops.append("dest,o%d" % rng.range(1, st["nobj"]))
             else:
                 ops.append(k)
         return ops
@@ -308,7 +365,7 @@ class C10(Prop):
 
     def histogram(self, cases, impl):
         """branch histogram of a run (generator audit): which mechanisms of call_out.c the cases reached"""
-        keys = ["co", "cofp", "co_by_destructed", "co_with_player", "delay_lt1", "delay_lt_wheel", "delay_eq_wheel",
+        keys = ["co", "cofp", "co_by_destructed", "co_with_player", "co_with_4_args", "destco_refusal_probes", "delay_lt1", "delay_lt_wheel", "delay_eq_wheel",
                 "delay_gt_wheel", "delay_ge_2^31", "fires", "fires_with_player", "fp_owner_destructed",
                 "rmh_hit", "rmh_miss", "rmn_hit", "rmn_miss", "fh_hit", "fh_miss", "fn_hit", "fn_miss",
                 "answer_negative_overdue", "answer_int_converted", "rmall", "reload", "usage", "usage_second_chunk",
@@ -318,6 +375,7 @@ class C10(Prop):
         h = dict((k, 0) for k in keys)
         for c in cases:
             h["gop"] += sum(1 for l in c.lines if l.startswith("gop "))
+            h["destco_refusal_probes"] += sum(l.count("destco,") for l in c.lines)
             last_tick = None
             in_cb = False
             fires_this_tick = 0
@@ -369,6 +427,8 @@ class C10(Prop):
                             h["co_by_destructed"] += 1
                         if t[8] != "-":
                             h["co_with_player"] += 1
+                        if t[6].startswith("A"):
+                            h["co_with_4_args"] += 1
                         if d < 1:
                             h["delay_lt1"] += 1
                         elif d < 32:
